@@ -266,6 +266,32 @@ def run_producer_op(ctl, fake, op):
     ctl.log(('Done',))
 
 
+class FakeStack:
+    """What stands below the simple client in a run.  This default: the fake wrapped Client above and
+    producer scripts made of handler invocations.  drivers/sched_simple_eio.py provides the other one:
+    the REAL Client / AsyncClient over a fake engine.io transport, producer scripts made of transport
+    events.  A fresh object is made for every run (`stack=` of run_threads / run_async is the factory)."""
+    real = False
+
+    def client_kwargs(self, P):
+        return {}
+
+    def client_class(self, ctl, is_async):
+        return make_fake_async_client(ctl) if is_async else make_fake_client(ctl)
+
+    def connected(self, ctl, sc, P):
+        pass
+
+    def run_op(self, ctl, client, i, op):
+        run_producer_op(ctl, client, op)
+
+    def error(self):
+        return None
+
+    def close(self):
+        pass
+
+
 # --------------------------------------------------------------------------------------
 # thread driver
 # --------------------------------------------------------------------------------------
@@ -442,7 +468,7 @@ def _call_over(labels):
     return any(l[0] in ('Ret', 'Raise', 'Sent') for l in labels)
 
 
-def run_threads(P, C, sched, extend=None, max_steps=400, macro=False):
+def run_threads(P, C, sched, extend=None, max_steps=400, macro=False, stack=None):
     """Run the real SimpleClient under the baton scheduler.  With macro=True every choice is
     carried on to the end of the asyncio-granularity step (a producer finishes its handler
     invocation; the application task runs until it is registered in a wait or its call is
@@ -450,19 +476,21 @@ def run_threads(P, C, sched, extend=None, max_steps=400, macro=False):
     import socketio
     res = RunResult()
     ctl = ThreadCtl()
+    st = (stack or FakeStack)()
     cls = type('InstrumentedSimpleClient', (socketio.SimpleClient,),
-               {'connected': connected_property(ctl), 'client_class': make_fake_client(ctl)})
-    sc = cls()
+               {'connected': connected_property(ctl), 'client_class': st.client_class(ctl, False)})
+    sc = cls(**st.client_kwargs(P))
     sc.connected_event = IEvent(ctl, 'CE')
     sc.input_event = IEvent(ctl, 'IE')
-    sc.connect('http://c19.invalid')
-    sc.input_buffer = IList(ctl, sc.input_buffer)
-    fake = sc.client
     outs = []
     try:
+        sc.connect('http://c19.invalid')
+        sc.input_buffer = IList(ctl, sc.input_buffer)
+        fake = sc.client
+        st.connected(ctl, sc, P)
         cons = ctl.spawn('consumer', lambda: _consumer_body(ctl, sc, C, outs))
         prods = [ctl.spawn('producer%d' % i,
-                           (lambda scr: lambda: [run_producer_op(ctl, fake, op) for op in scr])(scr))
+                           (lambda i, scr: lambda: [st.run_op(ctl, fake, i, op) for op in scr])(i, scr))
                  for i, scr in enumerate(P)]
         for t in [cons] + prods:        # run every task up to its first access
             ctl.resume(t)
@@ -514,8 +542,11 @@ def run_threads(P, C, sched, extend=None, max_steps=400, macro=False):
         for t in [cons] + prods:
             if t.error is not None and res.error is None:
                 res.error = 'task %s crashed: %r' % (t.name, t.error)
+        if res.error is None:
+            res.error = st.error()
     finally:
         ctl.shutdown()
+        st.close()
     return res
 
 
@@ -601,7 +632,7 @@ def make_async_event(ctl, name):
     return IAEvent()
 
 
-async def _run_async(P, C, sched, extend, max_steps):
+async def _run_async(P, C, sched, extend, max_steps, stack=None):
     import socketio
     from socketio import async_simple_client as mod
     res = RunResult()
@@ -609,15 +640,17 @@ async def _run_async(P, C, sched, extend, max_steps):
     saved = mod.asyncio
     mod.asyncio = _AsyncioShim(ctl)
     cons_task = None
+    st = (stack or FakeStack)()
     try:
         cls = type('InstrumentedAsyncSimpleClient', (socketio.AsyncSimpleClient,),
-                   {'connected': connected_property(ctl), 'client_class': make_fake_async_client(ctl)})
-        sc = cls()
+                   {'connected': connected_property(ctl), 'client_class': st.client_class(ctl, True)})
+        sc = cls(**st.client_kwargs(P))
         sc.connected_event = make_async_event(ctl, 'CE')
         sc.input_event = make_async_event(ctl, 'IE')
         await sc.connect('http://c19.invalid')
         sc.input_buffer = IList(ctl, sc.input_buffer)
         fake = sc.client
+        st.connected(ctl, sc, P)
         loop = asyncio.get_running_loop()
         ctl.active = True
 
@@ -691,7 +724,7 @@ async def _run_async(P, C, sched, extend, max_steps):
                     res.error = 'consumer spins without suspending'
             else:
                 i = ch - 2
-                run_producer_op(ctl, fake, P[i][pos[i]])
+                st.run_op(ctl, fake, i, P[i][pos[i]])
                 pos[i] += 1
             res.trace.append(ctl.labels)
             k += 1
@@ -708,6 +741,8 @@ async def _run_async(P, C, sched, extend, max_steps):
         res.flags = (asyncio.Event.is_set(sc.input_event), asyncio.Event.is_set(sc.connected_event),
                      bool(sc.__dict__.get('_c19_connected')), NS in fake.namespaces)
         res.sent = len(fake.delivered)
+        if res.error is None:
+            res.error = st.error()
     finally:
         ctl.active = False
         if cons_task is not None and not cons_task.done():
@@ -719,18 +754,19 @@ async def _run_async(P, C, sched, extend, max_steps):
         elif cons_task is not None and cons_task.exception() is not None and res.error is None:
             res.error = 'consumer crashed: %r' % cons_task.exception()
         mod.asyncio = saved
+        st.close()
     return res
 
 
 _LOOP = None
 
 
-def run_async(P, C, sched, extend=None, max_steps=400):
+def run_async(P, C, sched, extend=None, max_steps=400, stack=None):
     """Run the real AsyncSimpleClient under the gate scheduler (one private event loop)."""
     global _LOOP
     if _LOOP is None or _LOOP.is_closed():
         _LOOP = asyncio.new_event_loop()
-    return _LOOP.run_until_complete(_run_async(P, C, sched, extend, max_steps))
+    return _LOOP.run_until_complete(_run_async(P, C, sched, extend, max_steps, stack))
 
 
 def close_loop():
